@@ -99,7 +99,7 @@ def real_law(item):
         return {"error": f"compile: {type(e).__name__}: {e}"}
     M = prog["maxIter"]
     names = info["outnames"]
-    nobj = sum(1 for e in names if e[0] == "prop")
+    nobj = len({(e[2] if len(e) > 2 else 0) for e in names if e[0] in ("prop", "propidx")})
 
     def run(_s):
         try:
@@ -111,6 +111,9 @@ def real_law(item):
             kind, nm = entry[0], entry[1]
             if kind == "param":
                 out.append(_norm(scene.params[nm]))
+            elif kind == "propidx":   # element j of the tuple / list property of the k-th object
+                k, jdx = entry[2], entry[3]
+                out.append(_norm(getattr(scene.objects[0 if k == nobj - 1 else k + 1], nm)[jdx]))
             else:   # a property of the k-th object created by the program; Scene.objects lists the ego (the
                 # last one assigned to `ego`, here the last one created) first, then the others in creation order
                 k = entry[2] if len(entry) > 2 else 0
@@ -146,7 +149,9 @@ def main(tier):
     )
     ck.assumptions += [
         "finite-discrete fragment only (integer values; DiscreteRange/Uniform/Discrete/resample/lifted "
-        "operators and calls/params/one object property/hard and soft requirements)",
+        "operators and calls/params/object properties/hard and soft requirements; Uniform over tuples and lists "
+        "indexed by constant, negative and random indices, star-unpacked calls, coordinates of random vectors, "
+        "globalParameters feeding later draws, tuple- and list-valued properties)",
         "random.random() cells: one representative per interval between the soft-requirement probabilities, "
         "so `<= p` and `< p` are not distinguished (null set)",
         "the printer pair gen_discrete.to_scenic / to_prog is trusted glue",
@@ -161,7 +166,14 @@ def main(tier):
     ecore = gen_discrete.ego_core()
     if tier == "quick":
         ecore = ecore[seed() % 2 :: 2]
-    items = core + ecore + rand
+    # containers, attributes, star-unpacking, dependent global parameters, tuple-valued properties
+    ccore = gen_discrete.container_core()
+    if tier == "quick":
+        ccore = ccore[seed() % 5 :: 5]
+    if os.environ.get("C01_ONLY") == "containers":
+        core, ecore, rand = [], [], []
+    items = core + ecore + ccore + rand
+    ck.cov["container_core_programs"] = len(ccore)
     for i, (_t, _p, info) in enumerate(items):
         info["mode2D"] = i % 4 == 3  # every fourth program is compiled in 2D compatibility mode
     ck.cov["dropped_by_generator"] = dropped
